@@ -438,6 +438,25 @@ pub fn make_faulty(rng: &mut Rng, m: &Model, ctx: &[String], u: &Unit, kind: u8)
                             if !sib.is_empty() {
                                 leaves = sib;
                             }
+                            // ... and among the siblings, those whose name is closest to this
+                            // directory's (longest common prefix of at least three characters)
+                            let me = dir[dir.len() - 1].to_ascii_uppercase();
+                            let common = |a: &str| a.bytes().zip(me.bytes()).take_while(|(x, y)| x.eq_ignore_ascii_case(y)).count();
+                            let near: Vec<(&str, usize)> = m
+                                .spelled
+                                .iter()
+                                .filter(|s| {
+                                    !m.decl(s.decl).is_common()
+                                        && s.path.len() == dir.len() + 1
+                                        && s.path[..dir.len() - 1].iter().zip(&dir[..dir.len() - 1]).all(|(a, b)| a.eq_ignore_ascii_case(b))
+                                        && !s.path[dir.len() - 1].eq_ignore_ascii_case(&dir[dir.len() - 1])
+                                })
+                                .map(|s| (*s.path.last().unwrap(), common(s.path[dir.len() - 1])))
+                                .collect();
+                            let best = near.iter().map(|x| x.1).max().unwrap_or(0);
+                            if best >= 3 && rng.chance(2, 3) {
+                                leaves = near.iter().filter(|x| x.1 == best).map(|x| x.0).collect();
+                            }
                         }
                         leaves.sort();
                         leaves.dedup();
